@@ -3,7 +3,9 @@
     A case: a rule system, whether the tax-benefit system has the group entity, a
     population (group count, members_entity_id, roles, person ids, group ids), whether the
     target directory already holds a file, the requests before the dump and the requests
-    after it (run on the original and on the restored simulation).
+    after it (run on the original and on the restored simulation).  The observation also
+    says whether the state that is dumped satisfies the decidable form of the hypotheses of
+    restore_dump_identity ([dumpable_b]); the harness expects [true] for every case.
 
     File names: the model's [show]/[parse] are instantiated here with a concrete, total,
     injective text encoding of periods ([show_enc] / [parse_enc]; round trip proved in
@@ -147,7 +149,7 @@ Definition run (c : case) : obs :=
       let fuel := enough_fuel sy in
       let '(s1, a1) := Engine.run fuel sy pp (init []) before in
       let u1 := with_st u0 s1 in
-      OL [ oanswers a1; ocache (cache s1); ostruct og u1;
+      OL [ oanswers a1; ocache (cache s1); ostruct og u1; OB (dumpable_b sy og u1);
            match dump_simulation show_enc sy og u1 (if dirty then junk else []) with
            | Err e => OErr e
            | Ok f =>
